@@ -1,3 +1,4 @@
 /- Props/C17.lean — property C17: all theorems live in namespace CM.Props.C17, split over two files. -/
+import CircuitProofs.Props.C17Tie
 import CircuitProofs.Props.C17Seq
 import CircuitProofs.Props.C17Conc
